@@ -792,6 +792,11 @@ impl VersionSet {
 
 #[cfg(feature = "verif")]
 impl VersionSet {
+    /// Verification hook: set the compaction pointer of a level.
+    pub(crate) fn set_compaction_pointer_for_verif(&mut self, level: usize, key: InternalKey) {
+        self.compaction_pointers[level] = Some(key);
+    }
+
     /// Verification hook: behave as a freshly recovered version set that did not reuse its manifest.
     pub(crate) fn drop_manifest_for_verif(&mut self) {
         self.maybe_manifest_file = None;
